@@ -71,9 +71,13 @@ def encode_physical(lrs, cfg, splits=None):
             if cfg.get('checksum'):
                 attr |= ATTR_CHECKSUM
             pos = len(out)
+            # optional null padding after the physical record (LIS-79 2.3.1.1: to a minimum record length; in practice
+            # also to a multiple of 2 or 4 bytes): cfg['pad'] = ('min', length) | ('mod', 2 | 4); covered by the TIF marker
+            pad = cfg.get('pad')
+            npad = 0 if not pad else max(0, pad[1] - pr_len) if pad[0] == 'min' else (-pr_len) % pad[1]
             if fmt:
                 model['tif_pos'].append(pos)
-                out += struct.pack(fmt, 0, prev_tif, pos + TIF_LEN + pr_len)
+                out += struct.pack(fmt, 0, prev_tif, pos + TIF_LEN + pr_len + npad)
                 prev_tif = pos
             hpos = len(out)
             out += struct.pack('>HH', pr_len, attr)
@@ -85,6 +89,7 @@ def encode_physical(lrs, cfg, splits=None):
             if cfg.get('checksum'):
                 model['checksum_pos'].append(len(out))
                 out += b'\x00\x00'
+            out += b'\x00' * npad
             prs.append((pos, hpos, hpos + PRH_LEN, n, pr_len))
             rec_no += 1
             ofs += n
@@ -407,6 +412,8 @@ def encode_data_record(lr_type, indirect, frames):
 
 
 X_UNITS = [b'FEET', b'M   ', b'.1IN', b'INCH', b'S   ', b'MS  ']
+#: ... and unit mnemonics that the LIS unit table of the package does not hold (vendor spellings, blank): legal in a file
+X_UNITS_WITH_UNKNOWN = X_UNITS + [b'SEC ', b'MTR ', b'HRS ', b'DEG ']
 
 
 @st.composite
@@ -450,7 +457,7 @@ def safe_words(draw, rc, n):
 
 
 @st.composite
-def log_passes(draw, max_channels=6, max_frames=60, allow_dipmeter=True):
+def log_passes(draw, max_channels=6, max_frames=60, allow_dipmeter=True, x_units=None):
     """One log pass: DFSR model + frames (raw words) + frames-per-record pattern."""
     indirect = draw(st.booleans())
     xs = draw(x_axis_specs())
@@ -486,7 +493,7 @@ def log_passes(draw, max_channels=6, max_frames=60, allow_dipmeter=True):
     depth_rc = draw(st.sampled_from([68, 68, 73]))
     if depth_rc == 73 and (xs['spacing'] != int(xs['spacing']) or xs['x0'] != int(xs['x0'])):
         depth_rc = 68
-    units = draw(st.sampled_from(X_UNITS))
+    units = draw(st.sampled_from(x_units or X_UNITS))
     blocks = [{'type': 1, 'size': 1, 'rc': 66, 'value': draw(st.sampled_from([0, 0, 1]))},
               {'type': 4, 'size': 1, 'rc': 66, 'value': xs['up_down']},
               {'type': 12, 'size': 4, 'rc': 68, 'value': -999.25}]
@@ -534,7 +541,7 @@ def log_pass_records(lp):
 
 @st.composite
 def lis_files(draw, max_passes=3, max_frames=60, tif_options=('none', 'normal', 'reversed'), allow_dipmeter=True, tables=True,
-              pairs=False, empty_passes=False):
+              pairs=False, empty_passes=False, x_units=None):
     """A whole LIS file model: [reel/tape header] (file header, tables, log pass, tables, file trailer)+ [tape/reel trailer]."""
     cfg = draw(phys_cfgs(tif_options=tif_options))
     if cfg['pr_len'] < 16:
@@ -558,18 +565,18 @@ def lis_files(draw, max_passes=3, max_frames=60, tif_options=('none', 'normal', 
                 items.append(('misc', (232, draw(st.binary(min_size=1, max_size=40)))))
         if empty_passes and draw(st.integers(0, 5)) == 0:
             # a format specification that is not followed by any data record (e.g. written twice): a log pass of 0 frames
-            e = draw(log_passes(max_frames=2, allow_dipmeter=False))
+            e = draw(log_passes(max_frames=2, allow_dipmeter=False, x_units=x_units))
             items.append(('pass', dict(e, frames=[], per_record=[])))
         if pairs and draw(st.integers(0, 3)) == 0:
             # a normal data (type 0) and an alternate data (type 1) log pass in ONE logical file, their data records interleaved
-            a = draw(log_passes(max_frames=max_frames, allow_dipmeter=allow_dipmeter))
-            b = draw(log_passes(max_frames=max_frames, allow_dipmeter=allow_dipmeter))
+            a = draw(log_passes(max_frames=max_frames, allow_dipmeter=allow_dipmeter, x_units=x_units))
+            b = draw(log_passes(max_frames=max_frames, allow_dipmeter=allow_dipmeter, x_units=x_units))
             a = dict(a, data_type=0, blocks=[dict(x, value=0) if x['type'] == 1 else x for x in a['blocks']])
             b = dict(b, data_type=1, blocks=[dict(x, value=1) if x['type'] == 1 else x for x in b['blocks']])
             order = draw(st.lists(st.booleans(), min_size=len(a['per_record']) + len(b['per_record']), max_size=len(a['per_record']) + len(b['per_record'])))
             items.append(('pass_pair', {'a': a, 'b': b, 'order': order, 'b_first': draw(st.booleans())}))
         else:
-            items.append(('pass', draw(log_passes(max_frames=max_frames, allow_dipmeter=allow_dipmeter))))
+            items.append(('pass', draw(log_passes(max_frames=max_frames, allow_dipmeter=allow_dipmeter, x_units=x_units))))
         if tables and draw(st.integers(0, 3)) == 0:
             items.append(('table', {'lr_type': 34, 'name': b'CONS', 'columns': [b'MNEM', b'VALU'], 'rows': []}))
         if draw(st.integers(0, 9)) != 0:
